@@ -76,6 +76,24 @@ deffold("absnc", "sum", T.Real, lambda eng, k, v: z3.If(z3.Length(k) == 0, z3.Re
 deffold("constpart", "sum", T.Real, lambda eng, k, v: z3.If(z3.Length(k) == 0, _real(v), z3.RealVal(0)))
 
 
+def size_of(eng, ver):
+    """len(d), with what emptiness means: a dict without items has no key (python truthiness / len of a dict is
+    about its key set), and every fold of it is the fold of the empty dict"""
+    r = fold(eng, ver, "size")
+    if ver.kind != "empty" and not getattr(ver, "_emptiness", False):
+        ver._emptiness = True
+        eng.facts.add(z3.Implies(r == 0, ver.dom == z3.K(ver.ksort, z3.BoolVal(False))))
+        assert_same(eng, ver, empty(eng, ver.ksort, ver.vsort), r == 0)
+        # ... and a dict with items has one (skolem witness, at which the all-folds are instantiated)
+        eng.nfresh += 1
+        w = z3.Const("some_key_%d!%d" % (ver.n, eng.nfresh), ver.ksort)
+        if ver.ksort == T.Key:
+            eng.facts.key(w)
+        eng.facts.add(z3.Implies(r > 0, z3.Select(ver.dom, w)))
+        note_maybe(eng, ver, w, z3.Select(ver.val, w), r > 0)
+    return r
+
+
 def empty(eng, ksort, vsort):
     default = z3.RealVal(0) if vsort == T.Real else (z3.IntVal(0) if vsort == T.Int else None)
     if default is None:
@@ -141,6 +159,17 @@ def note_present(eng, ver, k, v):
             eng.facts.add(val >= 1)
 
 
+def note_maybe(eng, ver, k, v, cond):
+    """(k, v) is an item of ver whenever cond holds: instantiate every all-fold of ver under that condition"""
+    if not hasattr(ver, "maybe"):
+        ver.maybe = []
+    ver.maybe.append((k, v, cond))
+    maxabs_note(eng, ver.ksort, k)
+    for name, val in list(ver.cache.items()):
+        if name in FOLDS and FOLDS[name].kind == "all":
+            eng.facts.add(z3.Implies(z3.And(cond, val), FOLDS[name].fn(eng, k, v)))
+
+
 def fold(eng, ver, name):
     if name in ver.cache:
         return ver.cache[name]
@@ -155,8 +184,8 @@ def fold(eng, ver, name):
         r = z3.Const("%s_%d!%d" % (name, ver.n, eng.nfresh), F.sort)
         if name == "size":
             eng.facts.add(r >= 0)
-            # a dict without items has no key (python truthiness / len of a dict is about its key set)
-            eng.facts.add(z3.Implies(r == 0, ver.dom == z3.K(ver.ksort, z3.BoolVal(False))))
+            ver.cache[name] = r
+            size_of(eng, ver)
         if name == "absnc":
             eng.facts.add(r >= 0)
         if name == "aden" and getattr(eng.facts, "origin", False) and ver.ksort == T.Key:
@@ -207,6 +236,8 @@ def fold(eng, ver, name):
     if F.kind == "all":
         for (k, v) in ver.picked:
             eng.facts.add(z3.Implies(r, F.fn(eng, k, v)))
+        for (k, v, cond) in getattr(ver, "maybe", ()):
+            eng.facts.add(z3.Implies(z3.And(cond, r), F.fn(eng, k, v)))
     if name.startswith("within@"):
         # monotone in the parameter: within(A) and A subset B  ==>  within(B)   (same version)
         arr = F.param
@@ -364,3 +395,26 @@ def nth_item(eng, ver, i):
     if not any(k.eq(pk) for pk, _ in ver.picked):
         note_present(eng, ver, k, v)
     return k, v
+
+
+KEYLABELS = z3.Function("keylabels", z3.ArraySort(T.Key, T.Bool), z3.ArraySort(T.Label, T.Bool))
+
+
+def keylabels_of(eng, ver):
+    """the set of labels occurring in the keys of the dict version: a function of its key set (so versions with
+    equal key sets have equal label sets by congruence); unfolded along `set` steps: labels(d + {k}) = labels(d) u set(k)"""
+    if "keylabels" in ver.cache:
+        return ver.cache["keylabels"]
+    if ver.ksort != T.Key:
+        raise Unsupported("labels of the keys of a dict that is not keyed by tuples")
+    eng.facts.enable_sets()
+    r = KEYLABELS(ver.dom)
+    ver.cache["keylabels"] = r
+    if ver.kind == "empty":
+        eng.facts.add(r == z3.K(T.Label, z3.BoolVal(False)))
+    elif ver.kind == "set":
+        p = keylabels_of(eng, ver.parent)
+        eng.facts.add(r == eng.facts.set_union(p, eng.facts.memset_of(eng.facts.key(ver.k))))
+    elif ver.kind in ("pop", "put"):
+        keylabels_of(eng, ver.parent)
+    return r
